@@ -18,7 +18,9 @@ ENT_BYTES = (16, 20, 24, 28, 32)
 
 def _read(path):
     with open(path, encoding="utf-8") as f:
-        return [l.strip() for l in f.readlines() if l.strip() != "" and not l.startswith("#")]
+        # the published lists are in NFKD; read them into that form whatever form the file on disk is in, so that
+        # the reference does not inherit a re-saved (e.g. NFC) entry from the tree under test
+        return [unicodedata.normalize("NFKD", l.strip()) for l in f.readlines() if l.strip() != "" and not l.startswith("#")]
 
 
 _cache = {}
